@@ -266,7 +266,15 @@ fn parse_v_model_directive(
     if let Expr::Array(ArrayLit { elems, .. }) = attr_value {
         value = match elems.first() {
             Some(Some(ExprOrSpread { spread: None, expr })) => (**expr).clone(),
-            _ => Expr::Ident(quote_ident!("").into()),
+            _ => {
+                HANDLER.with(|handler| {
+                    handler.span_err(
+                        jsx_attr.span,
+                        "The first element of the array passed to `v-model` must be the bound value.",
+                    );
+                });
+                Expr::Ident(quote_ident!("").into())
+            }
         };
         if let Some(Some(ExprOrSpread { spread: None, expr })) = elems.get(1) {
             match &**expr {
